@@ -1625,6 +1625,22 @@ func lex4(c *Ctx) {
 				})
 			}
 			c.Check(bad == "", key+":any-text", cv.Pos(), "inside `=<...>` only '<' and '>' are looked for: the text is free", bad)
+			// and the byte after '=' was found to be '<' before the token is emitted
+			opened := false
+			ir.Instrs(fn, func(in ssa.Instruction) {
+				x, isBo := in.(*ssa.BinOp)
+				if !isBo || (x.Op != token.EQL && x.Op != token.NEQ) {
+					return
+				}
+				ix, isIx := x.X.(*ssa.Index)
+				if !isIx || !m.isUsage(ix.X) {
+					return
+				}
+				if k, isK := ir.ConstInt(x.Y); isK && k == '<' && ir.HoldsAt(x, x.Op == token.EQL, cv.Block()) {
+					opened = true
+				}
+			})
+			c.Check(opened, key+":opened", cv.Pos(), "the annotation is emitted only after a '<' was found behind the '='", "an `=` that is not followed by `<` can become an option value annotation (`-f=x>` would compile)")
 		}
 	}
 }
